@@ -201,6 +201,8 @@ fn c10_cases() -> Vec<(Box<dyn Subject>, generic::StreamCase)> {
         (subjects::make("cnf", "i64", true), case("cnf-headerless", b"", b"12345678 -123456789 0\n7 0\n", b"1 0", 24)),
         (subjects::make("wcnf", "i32", false), case("wcnf", b"p wcnf 9 0 100\n", b"5 1 -2 0\n18446744073709551615 -9 0\nc x\n", b"", 32)),
         (subjects::make("gcnf", "i32", false), case("gcnf", b"p gcnf 9 0 7\n", b"{1} 1 -2 0\n{7} -9 0\n", b"", 16)),
+        (subjects::make("cnf", "i32", false), case("cnf-blank-line-run", b"", b"\n", b"1 0\n", 8)),
+        (subjects::make("gcnf", "i32", true), case("gcnf-crlf-blank-run", b"p gcnf 1 1 1\r\n", b"\r\n \r\n", b"{1} 1 0\r\n", 8)),
         (subjects::make("cnf", "i32", false), case("cnf-comment-run", b"p cnf 1 1\n", b"c a comment line\n", b"1 0\n", 20)),
         (subjects::make("wcnf", "i32", true), case("wcnf-blank-and-comment-run", b"", b"c x\n\n \t\n", b"3 1 0\n", 12)),
         (subjects::make("cnf", "i32", false), case("cnf-split-clause-comments", b"1\n", b"c inside a clause\n\n", b"0\n", 20)),
